@@ -347,6 +347,9 @@ def _case_worker(task):
         feat = {"custom": True, "generic": True, "func_if": True, "ml": True}
         if mode == "naming":  # no version adaptation: every name is predictable
             feat = {"mixed": False, "rmax": False, "custom": True, "generic": True, "func_if": True, "ml": True}
+        if mode == "oracle" and rng.random() < 0.25:
+            feat["newer_only_in_funcs"] = True
+            feat["inline"] = False  # (inlined models bring their own opset imports)
         g = L.Gen(rng, feat)
         spec = g.gen_spec()
         st, m = L.build_spec(spec)
